@@ -42,6 +42,10 @@ Theorems (coq/theories/C02/Property.v, all "Closed under the global context"; ck
   C02_roundtrip / C02_model_roundtrip   PRINCIPAL, full: forall p, wf_model p -> exists q, roundtrip_model p = Ok q
                             /\ norm_model q = norm_model p   (IR 3..13, opset dict, functions table, device
                             configurations at IR >= 11, metadata, producer fields)
+  C02_attr_roundtrip, C02_function_entry_roundtrip   the standalone entry points from_proto/to_proto on an
+                            AttributeProto (all kinds, references, subgraphs of any depth, value sub-message present
+                            but empty or absent) and on a FunctionProto (serialize_function(create_value_info=True), no
+                            model IR version); both are also message kinds of the correspondence ("attr", "function")
   C02_function_roundtrip    functions: overloads, attribute parameters, reference attributes, IR-10 value_info
                             incl. function inputs, nothing moved to the main graph for a well-formed function
   C02_graph_roundtrip / C02_graph_scoping   graphs at every nesting depth and in any scope stack: scoped name tables
@@ -77,7 +81,8 @@ Findings on the tree as first read (all reproduced on the real code; witnesses i
   fixed 952a3c2  quantization-annotation-duplicated   (my proposed_fixes/C02-quantization-annotation-duplicated.diff)
   fixed 86f4e6a  ref-graph-attr-crash                 (proposed_fixes/C02-ref-graph-attr-traversal.diff; committed variant)
   fixed 66aa20a  tensorproto-metadata-duplicated      (orchestrator, before this module existed)
-  known          external-data-checksum-dropped       (no small repair: ExternalTensor has no slot for extra keys)
+  known          external-data-checksum-dropped       (proposed_fixes/C02-external-data-extra-entries.diff: keep the
+                 uninterpreted entries in tensor.meta and write them back; not applied)
   The model describes the fixed code; the witnesses are ordinary supported corpus cases now.
   The IR < 10 experimental function value-info lookup (names "domain::function/value" in the main graph) is now
   modelled (parse_exp / apply_exp_fn, gated on the regenerated FUNCTION_VALUE_INFO_SUPPORTED_VERSION) instead of
@@ -1666,7 +1671,7 @@ def run(ck) -> None:
     ck.prove()
     # the principal theorem C02_roundtrip (and every stage theorem) is proved; see Property.v
     ck.level = "proof"
-    n_models = 200 if not ck.thorough else 4000
+    n_models = 200 if not ck.thorough else 3000
     # 1. corpus
     corpus_dir = os.path.join(common.CORPUS, "C02")
     corpus_cases: dict[str, list[dict]] = {k: [] for k in KINDS}
